@@ -36,6 +36,7 @@ META = {
     "note": "trusted: CPython, vf/hbfs.py canonicaliser, vf/subjref.py (reference model, scripted observers), VirtualTimeScheduler's queue "
     "discipline (C28/C29), AutoDetachObserver wrapping by Observable.subscribe",
 }
+META["text"] += "; thread part: subscribe() (meeting two retained values) and dispose() racing the emitting thread, judged against the sequential placements on the same class; no exception escapes"
 RULE = (
     "one BFS per configuration (buffer_size, window, which of the 3 observers is scripted and how); events = sub(i), unsub(i), next(a), "
     "next(b), error, complete, dispose, tick(5), tick(10) (windowed configurations), subbare (after dispose); a case = one transition "
